@@ -232,3 +232,59 @@ Example c07b_example_run :
   /\ kinds (run_with (br_read_exact 12) true (length s + 1) None false (Run.reader_of 10 [1; 0] s)) = ([0; 0], true)
   /\ kinds (run_with (br_read_exact 12) true (length s + 1) None false (Run.reader_of 9 [1; 0] s)) = ([0; 4], true).
 Proof. vm_compute. repeat split; reflexivity. Qed.
+
+(* ---------- the shortcut of the differential run for streams longer than 10 MiB (Model/Run.v, op 43) ----------
+   Run.big_stream sh nrec l tail is nrec copies of one record (optional storage header DLT\x01 + 12 zero bytes,
+   header type 0x20, counter 0, LEN = l big-endian, l - 4 zero bytes) followed by tail; Run.big_spec_run computes
+   the outcome of ONE record, repeats it nrec times (once, if it is a panic) and appends the run of the tail.
+   That IS spec_run on the whole stream, for every record count, LEN in 4 .. 65535, tail, filter and storage mode. *)
+From DltV.Proofs Require BigStream.
+Theorem c07b_big_stream : forall sh nrec l tail f,
+  4 <= l -> l <= 65535 ->
+  ReaderSpec.spec_run (Run.big_stream sh nrec l tail) f sh = Run.big_spec_run sh nrec l tail f.
+Proof. exact DltV.Proofs.BigStream.big_stream_sound. Qed.
+Check c07b_big_stream : forall sh nrec l tail f,
+  4 <= l -> l <= 65535 ->
+  ReaderSpec.spec_run (Run.big_stream sh nrec l tail) f sh = Run.big_spec_run sh nrec l tail f.
+Print Assumptions c07b_big_stream.
+
+(* three records of LEN 8 and a tail holding one small message, both storage modes: four messages either way;
+   with a tail cut off inside its message: three messages and the Unrecoverable error *)
+Example c07b_example_big_stream :
+  4 <= 8 /\ 8 <= 65535
+  /\ Run.big_stream false 3 8 ex_m1
+     = [x20; x00; x00; x08; x00; x00; x00; x00] ++ [x20; x00; x00; x08; x00; x00; x00; x00]
+       ++ [x20; x00; x00; x08; x00; x00; x00; x00] ++ ex_m1
+  /\ len (Run.big_stream true 3 8 (ex_sh ++ ex_m1)) = 96
+  /\ ReaderSpec.spec_run (Run.big_stream false 3 8 ex_m1) None false = Run.big_spec_run false 3 8 ex_m1 None
+  /\ map outcome_kind (ReaderSpec.spec_run (Run.big_stream false 3 8 ex_m1) None false) = [0; 0; 0; 0]
+  /\ map outcome_kind (Run.big_spec_run false 3 8 ex_m1 None) = [0; 0; 0; 0]
+  /\ ReaderSpec.spec_run (Run.big_stream true 3 8 (ex_sh ++ ex_m1)) None true
+     = Run.big_spec_run true 3 8 (ex_sh ++ ex_m1) None
+  /\ map outcome_kind (ReaderSpec.spec_run (Run.big_stream true 3 8 (ex_sh ++ ex_m1)) None true) = [0; 0; 0; 0]
+  /\ map outcome_kind (Run.big_spec_run true 3 8 (ex_sh ++ ex_m1) None) = [0; 0; 0; 0]
+  /\ map outcome_kind (ReaderSpec.spec_run (Run.big_stream false 3 8 (firstn 6 ex_m1)) None false) = [0; 0; 0; 3]
+  /\ map outcome_kind (Run.big_spec_run false 3 8 (firstn 6 ex_m1) None) = [0; 0; 0; 3]
+  /\ map outcome_kind (ReaderSpec.spec_run (Run.big_stream true 0 8 (ex_sh ++ ex_m1)) None true) = [0]
+  /\ map outcome_kind (Run.big_spec_run true 0 8 (ex_sh ++ ex_m1) None) = [0].
+Proof. vm_compute. repeat split; try reflexivity; discriminate. Qed.
+
+(* ... and with one record of another length in front *)
+Theorem c07b_big_stream2 : forall sh l1 nrec l tail f,
+  4 <= l1 -> l1 <= 65535 -> 4 <= l -> l <= 65535 ->
+  ReaderSpec.spec_run (Run.big_stream sh 1 l1 (Run.big_stream sh nrec l tail)) f sh
+  = Run.big_spec_run2 sh l1 nrec l tail f.
+Proof.
+  intros sh l1 nrec l tail f H1 H2 H3 H4.
+  rewrite (c07b_big_stream sh 1 l1 _ f H1 H2).
+  destruct l1 as [|p]; [exfalso; apply H1; reflexivity|].
+  unfold Run.big_spec_run2, Run.big_spec_run at 1.
+  change (N.pos p =? 0) with false. change (1 =? 0) with false. cbv iota.
+  rewrite (c07b_big_stream sh nrec l tail f H3 H4).
+  destruct (ReaderSpec.spec_outcome (dlt_message (Run.big_record sh (N.pos p)) f sh)); reflexivity.
+Qed.
+Check c07b_big_stream2 : forall sh l1 nrec l tail f,
+  4 <= l1 -> l1 <= 65535 -> 4 <= l -> l <= 65535 ->
+  ReaderSpec.spec_run (Run.big_stream sh 1 l1 (Run.big_stream sh nrec l tail)) f sh
+  = Run.big_spec_run2 sh l1 nrec l tail f.
+Print Assumptions c07b_big_stream2.
